@@ -400,7 +400,10 @@ pub fn run(o: &Opts) -> Report {
     let scratch = o.scratch.clone();
     let mut model_lines: Vec<String> = vec![];
     let mut model_expect: Vec<(String, String)> = vec![]; // (impl output, description)
-    if prop == "C16" {
+    // `--prop C03`: the curated race-prone programs and a few generated ones, judged ONLY by C03's clause —
+    // no orphan in any state a concurrent history can reach (the tree a schedule ends in is well-formed)
+    let c03 = prop == "C03";
+    if prop == "C16" || c03 {
         let mut programs: Vec<Program> = vec![];
         // curated race-prone programs (the check-then-act windows of the pre-fix code and the
         // handle protocol)
@@ -412,7 +415,11 @@ pub fn run(o: &Opts) -> Report {
         programs.push(cur(vec![Call::CreateDir("/a".into())], vec![vec![Call::RemoveDir("/a".into())], vec![Call::CreateDir("/a/b".into())], vec![Call::Exists("/a/b".into())]]));
         programs.push(cur(vec![Call::CreateDir("/a".into()), Call::CreateDir("/a/b".into())], vec![vec![Call::RemoveDir("/a/b".into()), Call::RemoveDir("/a".into())], vec![Call::CreateDir("/a/b/d".into())]]));
         programs.push(cur(vec![], vec![vec![Call::CreateDir("/a".into()), Call::CreateDir("/a/b".into())], vec![Call::CreateDir("/a".into()), Call::ReadDir("/a".into())]]));
-        let n_random = if o.thorough() { 120 } else { 40 };
+        // the path changes TYPE inside another call's window: a file removed and re-created as a directory
+        // with a child while a second remove_file of the same path is in flight
+        programs.push(cur(vec![Call::WriteSession("/a".into(), b"0".to_vec())], vec![vec![Call::RemoveFile("/a".into())], vec![Call::RemoveFile("/a".into()), Call::CreateDir("/a".into()), Call::CreateDir("/a/b".into())]]));
+        programs.push(cur(vec![Call::CreateDir("/a".into())], vec![vec![Call::RemoveDir("/a".into())], vec![Call::RemoveDir("/a".into()), Call::WriteSession("/a".into(), b"1".to_vec())]]));
+        let n_random = if o.thorough() { 120 } else if c03 { 12 } else { 40 };
         let ini = inits();
         for _ in 0..n_random {
             let nt = 2 + rng.below(2);
@@ -436,6 +443,7 @@ pub fn run(o: &Opts) -> Report {
             Program { init: vec![Call::WriteSession("/c".into(), b"".to_vec())], threads: vec![vec![Call::AppendSession("/c".into(), b"x".to_vec())], vec![Call::AppendSession("/c".into(), b"y".to_vec())]], backend: "mem" },
         ];
         let cap = if o.thorough() { 6000 } else { 3000 };
+        let known_units = if c03 { vec![] } else { known_units };
         for (pi, prog) in programs.iter().chain(known_units.iter()).enumerate() {
             let unit_program = pi >= programs.len();
             let seq = sequential_outcomes(prog, &scratch, &mut n);
@@ -669,7 +677,7 @@ pub fn run(o: &Opts) -> Report {
         }
     }
     // CORR batch (C16)
-    if !model_lines.is_empty() {
+    if !model_lines.is_empty() && !c03 {
         let outs = run_driver(&o.driver, &model_lines);
         for ((line, (imp, desc)), m) in model_lines.iter().zip(model_expect.iter()).zip(outs.iter()) {
             if line.starts_with("crun") {
@@ -684,5 +692,8 @@ pub fn run(o: &Opts) -> Report {
     }
     let _ = project;
     rep.notes.push(format!("property {}: all interleavings at lock-acquisition granularity by re-execution under a cooperative scheduler (cap per program, then random schedules)", prop));
+    if c03 {
+        rep.fails.retain(|f| f.oracle == "prop" && (f.signature.contains("orphan") || f.signature.contains("panic") || f.signature.contains("stall")));
+    }
     rep
 }
